@@ -333,6 +333,9 @@ pub struct EOpts {
     pub outer_mode: &'static str,
     /// number of top-level dispatches contained in the trace (1 except for async histories)
     pub top_mult: usize,
+    /// the dispatch was cut short by a (caught) panic: run counts are not judged, and ordering /
+    /// isolation are judged on the windows that exist (an unwound window is open to the end)
+    pub partial: bool,
 }
 
 #[derive(Clone, Debug, Default)]
@@ -352,6 +355,8 @@ pub struct EStats {
 pub struct Windows {
     pub by_uid: HashMap<u32, Vec<Win>>,
     pub ctl_rel: HashMap<u32, Vec<usize>>,
+    /// timestamp of the last event every uid logged (lower bound for the end of an unwound run)
+    pub last_ev: HashMap<u32, usize>,
     pub t0: usize,
     pub t1: usize,
 }
@@ -359,9 +364,13 @@ pub struct Windows {
 pub fn collect_windows(evs: &[Event], out: &mut Vec<Finding>) -> Windows {
     let mut by_uid: HashMap<u32, Vec<Win>> = HashMap::new();
     let mut ctl_rel: HashMap<u32, Vec<usize>> = HashMap::new();
+    let mut last_ev: HashMap<u32, usize> = HashMap::new();
     let mut t0 = evs.first().map(|e| e.ts).unwrap_or(0);
     let mut t1 = evs.last().map(|e| e.ts + 1).unwrap_or(0);
     for e in evs {
+        if e.uid != 0 {
+            last_ev.insert(e.uid, e.ts);
+        }
         match e.kind {
             Ev::DispBegin => t0 = e.ts,
             Ev::DispEnd => t1 = e.ts,
@@ -387,7 +396,7 @@ pub fn collect_windows(evs: &[Event], out: &mut Vec<Finding>) -> Windows {
             _ => {}
         }
     }
-    Windows { by_uid, ctl_rel, t0, t1 }
+    Windows { by_uid, ctl_rel, last_ev, t0, t1 }
 }
 
 fn descendant_uids(p: &Plan, v: &mut Vec<u32>) {
@@ -476,6 +485,14 @@ fn check_level(
     let empty: Vec<Win> = Vec::new();
     let wins: Vec<&Vec<Win>> = rel.units.iter().map(|u| w.by_uid.get(&u.uid).unwrap_or(&empty)).collect();
     let mut ok = true;
+    if opts.partial {
+        check_level_partial(plan, &rel, &wins, depth, path, w, opts, out, st);
+        for b in plan.batches() {
+            let idx = rel.index[&b.uid];
+            check_level(&b.inner, Some((b, wins[idx])), mult * b.k as usize, depth + 1, &format!("{}/batch{}", path, b.uid), w, opts, out, st);
+        }
+        return;
+    }
     for (i, u) in rel.units.iter().enumerate() {
         if wins[i].len() != mult {
             out.push(Finding::new(
@@ -677,6 +694,75 @@ fn check_level(
             out,
             st,
         );
+    }
+}
+
+/// Ordering / isolation on a dispatch that was cut short by a panic: only the first occurrence of
+/// every unit is judged (inner levels of batches with k > 1 are covered by complete dispatches),
+/// a window that never closed (its system unwound) counts as open until the end of the trace.
+#[allow(clippy::too_many_arguments)]
+fn check_level_partial(
+    _plan: &Plan,
+    rel: &Relations,
+    wins: &[&Vec<Win>],
+    depth: usize,
+    path: &str,
+    w: &Windows,
+    _opts: &EOpts,
+    out: &mut Vec<Finding>,
+    st: &mut EStats,
+) {
+    let inner = depth > 0;
+    let n = rel.units.len();
+    let first: Vec<Option<Win>> = (0..n)
+        .map(|i| {
+            wins[i].first().map(|x| {
+                let mut x = *x;
+                if !x.closed {
+                    // the run unwound at an unknown time after its last logged event: a sound
+                    // lower bound for "ended"
+                    x.rel = w.last_ev.get(&rel.units[i].uid).cloned().unwrap_or(x.enter).max(x.enter);
+                }
+                x
+            })
+        })
+        .collect();
+    for y in 0..n {
+        let Some(wy) = first[y] else { continue };
+        for x in 0..y {
+            let dep = rel.deps_tc[y].contains(&x);
+            let bar = rel.segment[x] < rel.segment[y];
+            let conf = rel.conflict(x, y);
+            match first[x] {
+                None => {
+                    // y ran although something it must follow never ran in this (cut short) dispatch
+                    if dep {
+                        out.push(Finding::new(&with_c07("C02", inner), "log_dep_skipped", format!("{}: u{} ran in a dispatch in which its dependency u{} never ran", path, rel.units[y].uid, rel.units[x].uid)));
+                    }
+                }
+                Some(wx) => {
+                    if dep {
+                        st.dep_pairs_checked += 1;
+                        if !(wx.rel < wy.enter) {
+                            out.push(Finding::new(&with_c07("C02", inner), "log_dep_overtaken", format!("{}: (dispatch cut short by a panic) u{} entered at ts {} before its dependency u{} had ended (ts {})", path, rel.units[y].uid, wy.enter, rel.units[x].uid, wx.rel)));
+                        }
+                    }
+                    if bar {
+                        st.barrier_pairs_checked += 1;
+                        if !(wx.rel < wy.enter) {
+                            out.push(Finding::new(&with_c07("C03", inner), "log_barrier_overtaken", format!("{}: (dispatch cut short by a panic) u{} (after a barrier) entered at ts {} before u{} (before it) had ended (ts {})", path, rel.units[y].uid, wy.enter, rel.units[x].uid, wx.rel)));
+                        }
+                    }
+                    if conf {
+                        st.conflict_pairs_checked += 1;
+                        if wx.overlaps(&wy) && wx.closed && wy.closed {
+                            let b = inner || rel.units[x].is_batch || rel.units[y].is_batch;
+                            out.push(Finding::new(&with_c07("C01", b), "log_conflict_overlap", format!("{}: (dispatch cut short by a panic) conflicting u{} [{}..{}] and u{} [{}..{}] overlapped", path, rel.units[x].uid, wx.enter, wx.rel, rel.units[y].uid, wy.enter, wy.rel)));
+                        }
+                    }
+                }
+            }
+        }
     }
 }
 
